@@ -52,6 +52,7 @@ type vpC34Core struct {
 	eofWithData bool
 	panicAt     int // index of the Read/WriteTo-piece call that panics (-1: never)
 	errAt       int // index of the call that returns vpC34ErrRead (-1: never)
+	closeErr    bool // Close() does its work and reports an error
 
 	closes       atomic.Int32
 	closeWithErr atomic.Int32
@@ -143,7 +144,15 @@ func (c *vpC34Core) writeTo(w io.Writer) (int64, error) {
 	}
 }
 
-func (c *vpC34Core) close() error { c.closes.Add(1); return nil }
+func (c *vpC34Core) close() error {
+	c.closes.Add(1)
+	if c.closeErr {
+		return vpC34ErrClose
+	}
+	return nil
+}
+
+var vpC34ErrClose = errors.New("vpC34: the stream's Close reports an error")
 
 // the interface sets a body stream may expose select different code paths inside fasthttp
 type vpC34Plain struct{ c *vpC34Core } // io.Reader + io.Closer
@@ -377,6 +386,7 @@ type vpC34Scn struct {
 	declKind    string // "chunked" | "exact" | "short" (stream shorter than declared) | "long" (stream longer)
 	declared    int
 	panicAt     int
+	closeErr    bool
 	errAt       int
 	bufSize     int
 	noBody      string // "" | "skipbody" | "204" | "304"  (responses only)
@@ -397,8 +407,8 @@ func vpC34Data(n, seed int) []byte {
 }
 
 func (s *vpC34Scn) String() string {
-	return fmt.Sprintf("resp=%v kind=%s len=%d decl=%s(%d) plan=%v eofWithData=%v panicAt=%d errAt=%d buf=%d noBody=%q immFlush=%v compress=%q pooled=%v post=%v flush=%v noWrite=%v",
-		s.resp, vpC34KindNames[s.kind], s.dataLen, s.declKind, s.declared, vpC34Short(s.plan), s.eofWithData, s.panicAt, s.errAt, s.bufSize, s.noBody, s.immFlush, s.compress, s.pooled, s.postOps, vpC34Short(s.flushEvery), s.noWrite)
+	return fmt.Sprintf("resp=%v kind=%s len=%d decl=%s(%d) plan=%v eofWithData=%v panicAt=%d errAt=%d buf=%d noBody=%q immFlush=%v compress=%q pooled=%v post=%v flush=%v noWrite=%v closeErr=%v",
+		s.resp, vpC34KindNames[s.kind], s.dataLen, s.declKind, s.declared, vpC34Short(s.plan), s.eofWithData, s.panicAt, s.errAt, s.bufSize, s.noBody, s.immFlush, s.compress, s.pooled, s.postOps, vpC34Short(s.flushEvery), s.noWrite, s.closeErr)
 }
 
 func vpC34Short(p []int) string {
@@ -472,6 +482,7 @@ func vpC34GenScn(t *rapid.T) *vpC34Scn {
 	s.seed = rapid.IntRange(0, 255).Draw(t, "seed")
 	s.plan = vpC34GenPlan(t, s.dataLen)
 	s.eofWithData = rapid.Bool().Draw(t, "eofWithData")
+	s.closeErr = rapid.IntRange(0, 5).Draw(t, "closeErr") == 0
 	s.bufSize = rapid.SampledFrom([]int{16, 64, 512, 4096, 4096, 8192}).Draw(t, "bufSize")
 	s.pooled = rapid.Bool().Draw(t, "pooled")
 	isSW := s.kind == vpC34KindStreamReader || s.kind == vpC34KindStreamWriter
@@ -586,7 +597,7 @@ type vpC34Msg interface {
 func vpC34Run(s *vpC34Scn, budget int) *vpC34Res {
 	res := &vpC34Res{}
 	data := vpC34Data(s.dataLen, s.seed)
-	core := &vpC34Core{data: data, plan: s.plan, eofWithData: s.eofWithData, panicAt: s.panicAt, errAt: s.errAt}
+	core := &vpC34Core{data: data, plan: s.plan, eofWithData: s.eofWithData, panicAt: s.panicAt, errAt: s.errAt, closeErr: s.closeErr}
 	var counted *vpC34Counted
 	swDone := make(chan struct{})
 	var swWriteErr atomic.Bool
@@ -804,6 +815,8 @@ func vpC34Check(t *rapid.T, s *vpC34Scn, res *vpC34Res, budget int) {
 	data := vpC34Data(s.dataLen, s.seed)
 	isSW := s.kind == vpC34KindStreamReader || s.kind == vpC34KindStreamWriter
 	streamFault := res.fired
+	// the stream's Close reported an error and Write passed it on: no write failure of the library's making
+	closeReported := s.closeErr && errors.Is(res.err, vpC34ErrClose)
 
 	// ---- close count -------------------------------------------------------------------------
 	if s.kind != vpC34KindStreamWriter {
@@ -879,7 +892,7 @@ func vpC34Check(t *rapid.T, s *vpC34Scn, res *vpC34Res, budget int) {
 			fail("the body on the wire is not (a prefix of) a well-formed chunked body: %s", bad)
 		}
 		if s.compress != "" {
-			if budget >= 0 && !clean {
+			if (budget >= 0 || closeReported) && !clean {
 				return // truncated compressed stream: only the close count is decidable
 			}
 			if !clean {
@@ -957,7 +970,7 @@ func vpC34Check(t *rapid.T, s *vpC34Scn, res *vpC34Res, budget int) {
 		if !bytes.Equal(nb, body) || left != 0 {
 			fail("net/http reads %d body bytes and leaves %d unread; own split has %d body bytes", len(nb), left, len(body))
 		}
-	} else if budget < 0 && !streamFault && s.declKind == "exact" {
+	} else if budget < 0 && !streamFault && !closeReported && s.declKind == "exact" {
 		fail("Write failed without any injected fault for a stream that yields exactly the declared size")
 	}
 	if budget < 0 && res.err == nil && res.panicked == nil && (s.declKind == "short" || s.declKind == "long") && s.declared != s.dataLen {
